@@ -219,6 +219,30 @@ def printed(out):
     return res
 
 
+def sanitize(o):
+    """JSON values TLC's Json module cannot represent: null and non-integer
+    numbers become strings (exact repr), numpy scalars become Python ones."""
+    if o is None:
+        return 'null'
+    if isinstance(o, bool):
+        return o
+    if isinstance(o, int):
+        return o
+    if isinstance(o, float):
+        return repr(o)
+    if isinstance(o, str):
+        return o
+    if isinstance(o, dict):
+        return {str(k): sanitize(v) for k, v in o.items()}
+    if isinstance(o, (list, tuple)):
+        return [sanitize(v) for v in o]
+    if hasattr(o, 'item'):
+        return sanitize(o.item())
+    if hasattr(o, 'tolist'):
+        return sanitize(o.tolist())
+    return str(o)
+
+
 def eval_records(module, records, name, shards=12, timeout=3600, cfg=None,
                  env=None, heap='3g', per_shard_min=1):
     """Hand `records` (list of JSON-able dicts, each with an integer 'id') to
@@ -239,7 +263,8 @@ def eval_records(module, records, name, shards=12, timeout=3600, cfg=None,
         os.makedirs(d, exist_ok=True)
         f = os.path.join(d, 'data.json')
         with open(f, 'w') as fh:
-            json.dump([{k: v for k, v in r.items() if not k.startswith('_')}
+            json.dump([sanitize({k: v for k, v in r.items()
+                                 if not k.startswith('_')})
                        for r in parts[idx]], fh)
         e = {'VERIF_DATA': f}
         if env:
